@@ -63,6 +63,33 @@ def run(tier, seed, replay=None):
         for c, got, want in zip(search_cases, res, search_want):
             if got[0] != want: V.fail("correspondence(model/impl) rank search loop", {"case": c, "model": got[0], "python_loop": want}, failing_input=False)
             else: n_search += 1
+    # the local iterative solver's own contract: restarting never makes the residual worse, a 'converged' answer meets the threshold
+    import torchtt._iterative_solvers as IS
+    class _Op:
+        def __init__(self, A): self.A = A
+        def matvec(self, v): return self.A @ v.reshape(-1, 1)
+    n_loc = 0
+    for t in range(8 if tier == "quick" else 80):
+        m = rng.choice([60, 90, 120])
+        L = torch.zeros(m, m, dtype=torch.float64)
+        for i_ in range(m):
+            L[i_, i_] = 2.0 + rng.choice([0.0, 0.01])
+            if i_ > 0: L[i_, i_ - 1] = -1.0
+            if i_ < m - 1: L[i_, i_ + 1] = -1.0 + (0.3 if rng.random() < 0.3 else 0.0)
+        bvec = torch.tensor([[rng.gauss(0, 1)] for _ in range(m)], dtype=torch.float64)
+        thr = rng.choice([1e-8, 1e-10])
+        try:
+            x1, c1, k1 = IS.gmres(_Op(L), bvec, torch.zeros_like(bvec), m, 40, thr)
+            x4, c4, k4 = IS.gmres_restart(_Op(L), bvec, torch.zeros_like(bvec), m, 40, thr, 4)
+        except Exception as ex:
+            V.fail("gmres raises %s" % type(ex).__name__, {"size": m, "exc": str(ex)[:200]}); continue
+        r1 = float((L @ x1 - bvec).norm() / bvec.norm()); r4 = float((L @ x4 - bvec).norm() / bvec.norm())
+        n_loc += 1
+        if r4 > r1 * (1 + 1e-6) + 1e-14:
+            V.fail("gmres_restart: the residual after restarts is larger than after the first cycle", {"size": m, "threshold": thr, "one_cycle": r1, "restarted": r4})
+        if c4 and r4 > 10 * thr:
+            V.fail("gmres_restart reports convergence with a residual above the threshold", {"size": m, "threshold": thr, "restarted": r4})
+    dist["local gmres contract"] = n_loc
     for i in range(n):
         A, b, N, kind = gen_system(rng, torch, torchtt)
         eps = rng.choice([1e-10, 1e-8, 1e-6, 1e-4, 1e-3])
